@@ -43,6 +43,11 @@ def setup_state(sim, S, state, rng, k):
         S.up_seq = (S.up_seq + 1) & 7
         S.query(S.data_labels(S.up_seq, 0, 1, data))
         k.run(k.now + 3000)    # inside the 20 ms send-real-soon window
+    elif state == "big_frag":
+        # the largest fragment sizes a session may ask for, with a packet too big for one answer waiting
+        S.set_frag(rng.choice([4093, 4094, 4095, 4096, 8000, 65535]))
+        k.offer_tun("srv", proto.make_frame("10.9.0.1", S.tun_ip, 81, rng.choice([4300, 6100, 9000, 30000]), "random", rng), 81)
+        S.ping(50000)
     elif state == "raw":
         S.raw_login()
         k.run(k.now + 50000)
@@ -52,7 +57,7 @@ def setup_state(sim, S, state, rng, k):
         S.switch_codec(proto.BASE64)
 
 
-STATES = ["after_login", "lazy_held", "mid_upstream", "mid_downstream", "queue_full", "realsoon", "raw", "codec128", "codec64"]
+STATES = ["after_login", "lazy_held", "mid_upstream", "mid_downstream", "queue_full", "realsoon", "raw", "codec128", "codec64", "big_frag"]
 
 
 def one_run(params):
@@ -116,7 +121,14 @@ def one_run(params):
             elif cls == "raw_auth":
                 d, src = hostile.raw_shaped(rng, userids=(S.userid,), avoid=(H.userid,)), S
             else:
-                k.offer_tun("srv", hostile.hostile_tun_frame(rng), None)
+                if rng.random() < 0.3 and S.tun_ip:
+                    # a well-addressed but oversized / odd packet for the sacrificial session
+                    k.offer_tun("srv", proto.make_frame("10.9.0.1", S.tun_ip, 90 + i, rng.choice([24, 1500, 4096, 6100, 20000, 65000]),
+                                                        rng.choice(["random", "zeros"]), rng), None)
+                    if rng.random() < 0.5:
+                        S.query(S.ping_labels())
+                else:
+                    k.offer_tun("srv", hostile.hostile_tun_frame(rng), None)
                 d = None
             if d is not None:
                 recent.append((cls, d))
@@ -212,7 +224,7 @@ def scn(params):
 def run(ctx):
     res = core.Result()
     res.rule = ("scenario = real iodined (ASan+UBSan, random options -c / -b / wildcard domain / netmask) with a healthy "
-                "model-client session and a sacrificial logged-in session placed in one of 9 protocol states, then "
+                "model-client session and a sacrificial logged-in session placed in one of 10 protocol states, then "
                 "150-600 hostile inputs from 7 generator classes (arbitrary bytes, malformed DNS, tunnel-shaped "
                 "commands from outsiders and from the logged-in address, raw frames from both, hostile tun frames) "
                 "interleaved with time advances; oracle: no sanitizer report, no exit, no stall, and the healthy "
